@@ -598,7 +598,9 @@ impl ObjectReceiver {
             return;
         }
 
-        while let Some(item) = self.cache.pop() {
+        // Replay the packets in their order of arrival
+        let cache = std::mem::take(&mut self.cache);
+        for item in cache {
             let pkt = item.to_pkt();
             if self.push_to_block(&pkt, now).is_err() {
                 self.error("Fail to push block", now, false);
